@@ -417,10 +417,11 @@ _RETS = [[], [StopEvent], [EvA], [EvB]]
 @obligation(quick=150, thorough=400, partitions_quick=["nh <= 1", "nh == 2"], partitions_thorough=["nh <= 1", "nh == 2"],
             what="@catch_error consistency (<= 1 wildcard, for_steps targets known / not handlers / claimed once, "
                  "max_recoveries >= 1): accept/reject agrees with the reference",
-            bounds={"handlers": "0..2", "for_steps shapes": 7, "max_recoveries": "0..2"})
-def ob_handlers(nh: int, f1: int, f2: int, m1: int, m2: int, w0: bool) -> bool:
+            bounds={"handlers": "0..2", "for_steps shapes": 7, "max_recoveries": "0..2",
+                    "an ordinary (non-handler) step consuming StepFailedEvent": "absent / returning nothing / returning StopEvent; with or without its reachability opt-out"})
+def ob_handlers(nh: int, f1: int, f2: int, m1: int, m2: int, w0: bool, psf: int = 0, kp: bool = False) -> bool:
     """
-    pre: 0 <= nh <= 2 and 0 <= f1 <= 6 and 0 <= f2 <= 6 and 0 <= m1 <= 2 and 0 <= m2 <= 2
+    pre: 0 <= nh <= 2 and 0 <= f1 <= 6 and 0 <= f2 <= 6 and 0 <= m1 <= 2 and 0 <= m2 <= 2 and 0 <= psf <= 2
     post: _
     """
     nh = cint(nh, 0, 2)
@@ -432,7 +433,13 @@ def ob_handlers(nh: int, f1: int, f2: int, m1: int, m2: int, w0: bool) -> bool:
         steps.append(("h1", [StepFailedEvent], [], "catch_error", _for_steps(f1, "h1", "h2"), cint(m1, 0, 2), []))
     if nh >= 2:
         steps.append(("h2", [StepFailedEvent], [], "catch_error", _for_steps(f2, "h2", "h1"), cint(m2, 0, 2), []))
-    return _agree(steps, lambda: (set(), [[] for _ in steps]), w0, True)
+    psf = cint(psf, 0, 2)
+    if psf:
+        # an ORDINARY step that takes StepFailedEvent (nothing produces it and the runtime routes failures to handlers by name, never to
+        # it): unreachable unless it opts out of the reachability check
+        steps.append(("p", [StepFailedEvent], ([] if psf == 1 else [StopEvent]), "step", None, 1, []))
+    skip_p = cbool(kp)
+    return _agree(steps, lambda: (set(), [(["reachability"] if (s[0] == "p" and skip_p) else []) for s in steps]), w0, True)
 
 
 @obligation(quick=150, thorough=400,
